@@ -18,12 +18,14 @@ import numpy as np
 from .errors import HarnessError, InjectedCrash
 from .interleave import CrashTracer, Interleaver, LineCounter, current_vthread
 
-_HEX = re.compile(r"[0-9a-f]{8}-[0-9a-f]{4}-[0-9a-f]{4}-[0-9a-f]{4}-[0-9a-f]{12}|[0-9a-f]{32}")
+# uuid4 / md5 tokens, also the truncated remnants that dask leaves in fused key names ("...-c9c0a162d9334d1e864fa80a3f--570")
+_HEX = re.compile(r"(?<![0-9a-z])[0-9a-f]{3,}(?![0-9a-z])")
+_SEP = re.compile(r"-*#[-#]*")
 _tls = threading.local()
 
 
 def _strip(name) -> str:
-    return _HEX.sub("#", str(name))
+    return _SEP.sub("#", _HEX.sub("#", str(name)))
 
 
 def _keyparts(key):
